@@ -74,7 +74,13 @@ func (s *schedFS) after(kind, path string) {
 	copy(b[16:], kind)
 	h.Write(b[:])
 	v := h.Sum64()
-	if int(v%100) >= s.sp.Pct {
+	pct := s.sp.Pct
+	if kind == "dirsync" || kind == "create" || kind == "rename" {
+		// the operations around which Pebble's durability protocols are built
+		// (create file ... sync directory ... record that it is synced)
+		pct *= 3
+	}
+	if int(v%100) >= pct {
 		return
 	}
 	max := s.sp.Max
